@@ -58,6 +58,9 @@ def LAWS(family, **kw):
 KV_LAWS = MC("kv-laws", "MC_KV", "MC_KV.cfg", "MC_KV_thorough.cfg", workers=12, timeout=1800)
 KV_RESERVED = MC("kv-reserved", "MC_KV", "MC_KV_reserved.cfg", workers=4, expect_violation="Layout")
 KV_FIXEDLEN = MC("kv-fixedlen-prerepair", "MC_KV", "MC_KV_fixedlen.cfg", workers=2, expect_violation="FixedSplit")
+# the same laws for all byte values (names up to 4 bytes), symbolically; with ';' allowed Apalache must find the collision
+KV_APA = {"kind": "apalache", "name": "kv-apalache", "module": "KVApa", "init": "Init", "inv": "KVLaws"}
+KV_APA_SEMI = {"kind": "apalache", "name": "kv-apalache-reserved", "module": "KVApa", "init": "InitSemi", "inv": "KVLaws", "expect_violation": True}
 KV_KEYS = AUX("kv-keys", "keys", (150, 3000), chunk=150)
 
 
@@ -153,7 +156,7 @@ PLANS["C06"] = {
         # multi-page collections: bulk operations, DropIndex / CreateIndex over hundreds of entries
         T("bulk", "bulk", (24, 240), ["InvAudit"], backends="bolt,badger", chunk=3, heap="6g"),
         EDG("edges", ["InvAudit"], states=(30, 0), reads=(1, 1), writes=(25, 60)),
-        KV_LAWS, KV_FIXEDLEN, KV_KEYS,
+        KV_LAWS, KV_FIXEDLEN, KV_APA, KV_KEYS,
     ],
 }
 
@@ -195,7 +198,7 @@ PLANS["C13"] = {
     "stages": [
         T("catalog", "catalog", (60, 1500), ["InvC13"]),
         MC_PROPS,
-        KV_LAWS, KV_RESERVED, KV_KEYS,
+        KV_LAWS, KV_RESERVED, KV_APA, KV_APA_SEMI, KV_KEYS,
     ],
 }
 
@@ -204,7 +207,7 @@ PLANS["C14"] = {
     "assumptions": L1_ASSUME,
     "stages": [
         T("indexcat", "indexcat", (60, 1500), ["InvC14"]),
-        KV_LAWS, KV_KEYS,
+        KV_LAWS, KV_APA, KV_KEYS,
     ],
 }
 
@@ -425,5 +428,6 @@ WARM_MC = [LAWS(f) for f in ("values", "criteria", "norm", "paths")] + [MC_PROPS
            MC("conc-badger", "CloverConc", "MC_Conc_badger.cfg", workers=12),
            MC("conc-badger-prerepair", "CloverConc", "MC_Conc_badger_prefix.cfg", workers=12, expect_violation="Linearizable"),
            KV_LAWS, KV_RESERVED, KV_FIXEDLEN]
+WARM_APA = [KV_APA, KV_APA_SEMI]
 WARM_CONC = [{"module": "MC_ConcEmit", "cfg": c, "workers": 8, "heap": "8g", "name": "conc-emit"}
              for c in ("MC_ConcEmit_badger.cfg", "MC_ConcEmit_bolt.cfg", "MC_ConcEmit_badger_risky.cfg")]
